@@ -2623,25 +2623,53 @@ def namespace_to_flowir(
 
     pattern_name = re.compile(SignatureNamePattern)
 
+    # VV: the (stage, name) identifiers that are already in use - generated names must not collide with them
+    used_identifiers: typing.Set[typing.Tuple[int, str]] = set()
+    naming_errors = []
+
     for _, comp in components.items():
         assert isinstance(comp.scope.template, Component)
 
-        if comp.step_name not in component_names:
-            component_names[comp.step_name] = 0
-            name = comp.step_name
-        else:
-            component_names[comp.step_name] += 1
-            prior = component_names[comp.step_name]
-            name = "-".join((comp.step_name, number_to_roman_like_numeral(prior)))
+        prior = component_names.get(comp.step_name, -1)
 
+        while True:
+            prior += 1
+            if prior == 0:
+                name = comp.step_name
+            else:
+                name = "-".join((comp.step_name, number_to_roman_like_numeral(prior)))
 
-        match = pattern_name.fullmatch(name)
-        match_groups = match.groupdict()
+            match = pattern_name.fullmatch(name)
+            if match is None:
+                break
 
-        uid_to_name[tuple(comp.scope.location)] = (int(match_groups.get("stage") or 0), match_groups["name"])
+            match_groups = match.groupdict()
+            identifier = (int(match_groups.get("stage") or 0), match_groups["name"])
+
+            # VV: A step called "foo-I" (or "stage0.foo") may already own the name we'd generate for a homonym of "foo"
+            if identifier not in used_identifiers:
+                break
+
+        component_names[comp.step_name] = prior
+
+        if match is None:
+            naming_errors.append(
+                experiment.model.errors.DSLInvalidFieldError(
+                    location=comp.scope.dsl_location(),
+                    underlying_error=ValueError(f"The name of step {'/'.join(comp.scope.location)} is not a valid "
+                                                f"Component name (it must match {SignatureNamePattern})")
+                )
+            )
+            continue
+
+        used_identifiers.add(identifier)
+        uid_to_name[tuple(comp.scope.location)] = identifier
 
         comp.flowir['name'] = uid_to_name[tuple(comp.scope.location)][1]
         comp.flowir['stage'] = uid_to_name[tuple(comp.scope.location)][0]
+
+    if naming_errors:
+        raise experiment.model.errors.DSLInvalidError.from_errors(naming_errors)
 
     complete = experiment.model.frontends.flowir.FlowIRConcrete(
         flowir_0={},
